@@ -156,12 +156,187 @@ def replay(prop, path):
         C.cleanup(wd)
 
 
+def _c03_one(a):
+    tag, i, fpath, jpath, gaps = a
+    try:
+        if not os.path.exists(fpath):
+            return tag, i, None, None
+        b = open(fpath, "rb").read()
+        S = compare.norm_snapshot(json.load(open(jpath))) if jpath and os.path.exists(jpath) else None
+        diffs, D = compare.saved_consistency(S, b, gaps=gaps)
+        residue = None
+        if D is not None:
+            residue = (D["end_of_records"] - D["p0"]) % 512
+            nblk = D["nblocks"]
+        else:
+            nblk = None
+        return tag, i, diffs, (residue, nblk)
+    except Exception as e:
+        import traceback
+        return tag, i, [("HARNESS", "%s: %s %s" % (type(e).__name__, e, traceback.format_exc()[-300:]))], None
+
+
 def run_c03(tier, t0):
-    raise C.Harness("not built yet")
+    nh = 300 if tier == "quick" else 4000
+    nres = 520 if tier == "quick" else 1560
+    exe = build.build_flavour("asan")
+    selftest_codec()
+    wd = C.workdir("C03", tier)
+    try:
+        viols = []
+        jobs = []
+        # (a) objects built through the API, (b) load-then-edit, both with final save + snapshot
+        corp_paths, corp_metas, lst = make_corpus(os.path.join(wd, "corpus"), 120 if tier == "quick" else 600, first=200000)
+        workloads = [("api", ["--profile", "c01", "--maxops", "36", "--dump-final", "--maxdesc", "255"], int(nh * 0.6)),
+                     ("load_then_edit", ["--profile", "mixed", "--maxops", "14", "--dump-final", "--start", lst, "--maxdesc", "255"], int(nh * 0.3)),
+                     ("gaps", ["--profile", "c06", "--maxops", "30", "--dump-final"], int(nh * 0.1))]
+        first = 0
+        allR = []
+        flags = {}
+        for tag, args, cnt in workloads:
+            out = os.path.join(wd, tag)
+            C.run_driver(exe, "hist", cnt, out, args=args, first=first)
+            R = C.parse_out(out)
+            R.workload = dict(profile=tag, args=args, first=first, count=cnt)
+            for v in R.viol:
+                v["workload"] = R.workload
+            allR.append(R)
+            viols += [v for v in R.viol if v["prop"] in ("*",)]
+            for case, line in R.lines.get("FINAL", []):
+                fl = dict(kv.split("=") for kv in line.split()[2:])
+                saved = line.split()[1] == "saved"
+                flags[(tag, case)] = (saved, fl)
+                if not saved:
+                    if fl.get("wild") == "0" and fl.get("managedEdited") == "0" and fl.get("incomplete") == "0":
+                        viols.append(dict(prop="C03", key="save_threw", detail=line, case=case, log=os.path.join(out, "case_%d.log" % case), workload=R.workload))
+                    continue
+                if fl.get("managedEdited") == "1" or fl.get("offSpec") == "1" or fl.get("wild") == "1" or fl.get("incomplete") == "1":
+                    continue
+                jobs.append((tag, case, os.path.join(out, "final_%d.c3d" % case), os.path.join(out, "final_%d.json" % case), fl.get("gaps") == "1"))
+            first += cnt
+        # (c) residue sweep, fresh and loaded objects
+        for variant in (0, 1):
+            out = os.path.join(wd, "residue%d" % variant)
+            C.run_driver(exe, "residue", nres, out, args=["--variant", str(variant)])
+            R = C.parse_out(out)
+            R.workload = dict(profile="residue", args=["--variant", str(variant)])
+            allR.append(R)
+            viols += [v for v in R.viol if v["prop"] == "*"]
+            for case, line in R.lines.get("RES", []):
+                if " ok" not in line:
+                    viols.append(dict(prop="C03", key="residue_sweep/" + line.split()[2], detail=line, case=case))
+                else:
+                    jobs.append(("residue%d" % variant, case, os.path.join(out, "res_%d.c3d" % case), os.path.join(out, "res_%d.json" % case), False))
+        with Pool(C.NCPU) as pool:
+            res = pool.map(_c03_one, jobs, chunksize=8)
+        residues = {0: set(), 1: set()}
+        blocks = collections.Counter()
+        checked = collections.Counter()
+        shapes = set()
+        jobmap = {(j[0], j[1]): j for j in jobs}
+        for tag, i, diffs, extra in res:
+            if diffs is None:
+                continue
+            checked[tag] += 1
+            if extra and extra[0] is not None:
+                if tag.startswith("residue"):
+                    residues[int(tag[-1])].add(extra[0])
+                    blocks[extra[1]] += 1
+                shapes.add((tag if tag.startswith("residue") else "h", extra))
+            for key, detail in diffs:
+                if key == "HARNESS":
+                    raise C.Harness("C03 oracle failed on %s %d: %s" % (tag, i, detail))
+                j = jobmap[(tag, i)]
+                v = dict(prop="C03", key=key, detail="%s case %d: %s" % (tag, i, detail), case=i, files=[j[2]], log=os.path.join(os.path.dirname(j[2]), "case_%d.log" % i))
+                for R in allR:
+                    if R.workload["profile"] == tag:
+                        v["workload"] = R.workload
+                viols.append(v)
+        exhaustive = all(len(residues[v]) == 512 for v in (0, 1))
+        samples = [dict(kind=j[0], case=j[1], file=os.path.basename(j[2])) for j in jobs[:3]] + [dict(kind="residue sweep", fillers="8 filler parameters, total extra bytes = case index", residues_seen_fresh=len(residues[0]), residues_seen_loaded=len(residues[1]))]
+        cov = dict(evaluations=sum(checked.values()), distinct_nontrivial=len(shapes),
+                   rule="every saved file is decoded by the pointer-following reference decoder and checked for exact pointers, next-offsets, terminator, padding, block count, header/parameter agreement, data length, upper-case names, lock flags and content == memory; distinct = distinct (parameter-section residue mod 512, block count) pairs per workload kind",
+                   samples=samples, files_checked_by_kind=dict(checked), residues_mod_512_seen={"fresh": len(residues[0]), "loaded": len(residues[1])},
+                   parameter_block_counts_seen=dict(blocks), exhaustive=exhaustive,
+                   exhaustive_scope="the 512 residues of the parameter-section length modulo 512 (fresh and loaded objects); histories are sampled",
+                   skipped_histories=sum(1 for k, (saved, fl) in flags.items() if fl.get("offSpec") == "1" or fl.get("managedEdited") == "1"))
+        inconc = None
+        if not exhaustive:
+            inconc = "residue sweep incomplete: %d/%d residues" % (len(residues[0]), len(residues[1]))
+        if sum(checked.values()) < 0.7 * (nh + 2 * nres):
+            inconc = "too few files checked (%d)" % sum(checked.values())
+
+        def rinfo(v):
+            w = v.get("workload", {})
+            return dict(mode="hist" if w.get("profile") in ("api", "load_then_edit", "gaps") else "residue", flavour="asan", args=w.get("args", []))
+        return C.finish("C03", tier, "exploration", cov, viols, t0, replay_info=rinfo,
+                        assumptions=["the reference decoder implements the C3D specification (self-tested, agrees with the vendor files)"], inconclusive=inconc)
+    finally:
+        C.cleanup(wd)
+
+
+def _c04_cross(a):
+    """file 2 (written by generation 1) must decode to what generation 2 then shows (C03 oracle reused as a cross-check)"""
+    i, f2, snap2 = a
+    try:
+        if not (os.path.exists(f2) and os.path.exists(snap2)):
+            return i, None
+        S = compare.norm_snapshot(json.load(open(snap2)))
+        D = c3dref.decode(open(f2, "rb").read())
+        return i, compare.loaded_vs_ref(S, D)
+    except Exception as e:
+        return i, [("HARNESS", "%s: %s" % (type(e).__name__, e))]
 
 
 def run_c04(tier, t0):
-    raise C.Harness("not built yet")
+    n = 320 if tier == "quick" else 4000
+    gens = 2 if tier == "quick" else 4
+    exe = build.build_flavour("asan")
+    selftest_codec()
+    wd = C.workdir("C04", tier)
+    try:
+        paths, metas, lst = make_corpus(os.path.join(wd, "corpus"), n, first=100000)
+        out = os.path.join(wd, "out")
+        C.run_driver(exe, "gens", len(paths), out, args=["--list", lst, "--gens", str(gens)])
+        R = C.parse_out(out)
+        res = results_by_case(R)
+        viols = list(R.viol)
+        okc = 0
+        shapes = set()
+        variants = collections.Counter()
+        for i, p in enumerate(paths):
+            m = metas[i]
+            for v in m["variants"] or ["plain"]:
+                variants[v] += 1
+            line = res.get(i, "")
+            if " ok " in line:
+                okc += 1
+                shapes.add(json.dumps(m.get("shape", {}), sort_keys=True) + json.dumps(m.get("layout", {}), sort_keys=True, default=str))
+            elif "load_threw" in line:
+                viols.append(dict(prop="C04", key="well_formed_file_refused/" + line.split("load_threw ")[1].split(" ")[0], detail="%s: %s" % (os.path.basename(p), line), case=i, files=[p]))
+        for v in viols:
+            if "case" in v and v["case"] is not None and v["case"] < len(paths):
+                v.setdefault("files", [paths[v["case"]]])
+                v["detail"] = "%s variants=%s: %s" % (os.path.basename(paths[v["case"]]), metas[v["case"]]["variants"], v["detail"])
+        with Pool(C.NCPU) as pool:
+            cr = pool.map(_c04_cross, [(i, os.path.join(out, "gen2_%d.c3d" % i), os.path.join(out, "gen2_%d.json" % i)) for i in range(len(paths))], chunksize=8)
+        crossed = 0
+        for i, diffs in cr:
+            if diffs is None:
+                continue
+            crossed += 1
+            for key, detail in diffs:
+                if key == "HARNESS":
+                    raise C.Harness("cross-check failed on case %d: %s" % (i, detail))
+                viols.append(dict(prop="C04", key="file2_vs_generation2/" + key, detail="%s: %s" % (os.path.basename(paths[i]), detail), case=i, files=[paths[i]]))
+        samples = [dict(file=os.path.basename(paths[i]), variants=metas[i]["variants"], shape=metas[i].get("shape"), result=res.get(i, "")[:100]) for i in (0, 1, 2, len(paths) - 1)]
+        cov = dict(evaluations=len(paths), distinct_nontrivial=len(shapes), rule="one well-formed input per case (encoder corpus + 3 vendor files); each is loaded, saved, reloaded (%d generations); generation 1 vs later generations compared on content, successive saved files compared byte for byte; distinct = distinct (shape, layout) descriptors of inputs that completed all generations" % gens,
+                   samples=samples, completed_all_generations=okc, generations=gens, file2_decoded_and_compared_with_generation2=crossed, layout_variant_counts=dict(variants), child_end_status=dict(R.status))
+        inconc = None if okc >= 0.9 * len(paths) else "only %d of %d inputs completed" % (okc, len(paths))
+        return C.finish("C04", tier, "exploration", cov, viols, t0, replay_info=lambda v: dict(mode="gens", flavour="asan", args=["--gens", str(gens)]),
+                        assumptions=["inputs are well-formed by construction (reference encoder) or vendor files of the repository"], inconclusive=inconc)
+    finally:
+        C.cleanup(wd)
 
 
 def run_c12(tier, t0):
